@@ -277,19 +277,35 @@ class LocalStorageBackend(StorageBackend):
             )
         return full_path
 
+    @staticmethod
+    def _existing_file(full_path: str) -> str:
+        """A key names a FILE - exactly as on the S3 backend, where only exact
+        object keys exist.
+
+        A directory ('data' while 'data/x.parquet' exists) or a path below a
+        file is not a key: reading, opening or stat-ing it is a not-found
+        error, not IsADirectoryError / NotADirectoryError or - worse - the
+        directory's own size and mtime.
+        """
+        if not os.path.isfile(full_path):
+            raise FileNotFoundError(
+                errno.ENOENT, "No such file (a key names a file, not a directory)", full_path
+            )
+        return full_path
+
     def read_file(self, path: str) -> bytes:
-        full_path = self._resolve_path(path)
+        full_path = self._existing_file(self._resolve_path(path))
         with open(full_path, "rb") as f:
             return f.read()
 
     def open_file(self, path: str) -> Any:
         """Open local file for reading as a stream."""
-        full_path = self._resolve_path(path)
+        full_path = self._existing_file(self._resolve_path(path))
         return open(full_path, "rb")
 
     def open_seekable(self, path: str) -> Any:
         """Local files are already seekable; nothing to wrap."""
-        return open(self._resolve_path(path), "rb")
+        return open(self._existing_file(self._resolve_path(path)), "rb")
 
     def write_file(self, path: str, content: bytes) -> None:
         """Atomically write file with fsync for durability.
@@ -409,8 +425,17 @@ class LocalStorageBackend(StorageBackend):
         self.write_file(path, content)  # Uses atomic write
 
     def exists(self, path: str) -> bool:
+        """Existence of an exact key, with the S3 backend's rule.
+
+        A key names a file. Answering True for 'data/x.parquet' merely because
+        a DIRECTORY of that name exists would let a missing data file pass
+        validation; only a path written as a directory (trailing '/') asks
+        whether the directory exists.
+        """
         full_path = self._resolve_path(path)
-        return os.path.exists(full_path)
+        if path.endswith("/"):
+            return os.path.isdir(full_path)
+        return os.path.isfile(full_path)
 
     def list_files(self, prefix: str) -> List[str]:
         """List files under `prefix`, as paths relative to the table root.
@@ -447,7 +472,9 @@ class LocalStorageBackend(StorageBackend):
 
     def delete_file(self, path: str) -> None:
         full_path = self._resolve_path(path)
-        if os.path.exists(full_path):
+        # Deleting a name that is not a key (absent, or a directory) is a no-op,
+        # as on S3 - os.remove() on a directory would raise instead.
+        if os.path.isfile(full_path):
             os.remove(full_path)
 
     def makedirs(self, path: str, exist_ok: bool = True) -> None:
@@ -455,11 +482,11 @@ class LocalStorageBackend(StorageBackend):
         os.makedirs(full_path, exist_ok=exist_ok)
 
     def get_size(self, path: str) -> int:
-        full_path = self._resolve_path(path)
+        full_path = self._existing_file(self._resolve_path(path))
         return os.path.getsize(full_path)
 
     def get_modified_time(self, path: str) -> float:
-        full_path = self._resolve_path(path)
+        full_path = self._existing_file(self._resolve_path(path))
         return os.path.getmtime(full_path)
 
     def create_lock(self, path: str, timeout: float = 30.0) -> "LockProvider":
